@@ -147,6 +147,13 @@ class BaseDevice:
         # stamp BEFORE sending: a client return earlier than this stamp cannot be a measurement artefact
         self.log("ack", (index, reply))
         self._write(reply + b"\n")
+        # asynchronous error: reported while no statement is pending (e.g. Grbl raising an alarm
+        # while executing a move it has already acknowledged)
+        after = getattr(self.b, "async_error_after", None)
+        if after and index in after:
+            time.sleep(getattr(self.b, "async_gap", 0.05))
+            self.log("async-error", (index, after[index]))
+            self._write(after[index] + b"\n")
         self.idle_since = time.monotonic()
 
     def request_resend(self, error: bytes):
